@@ -190,6 +190,29 @@ func collectForalls(t *Term, guard *Term, out *[]hyp) {
 			}
 			collectForalls(t.args[1], g, out)
 		}
+	case "or":
+		// A1 or ... or (forall ...): the quantified disjunct holds whenever the ground ones do not
+		qi := -1
+		var ng []*Term
+		for i, a := range t.args {
+			if containsQuant(a) {
+				if qi >= 0 {
+					return
+				}
+				qi = i
+			} else if a.bound {
+				return
+			} else {
+				ng = append(ng, Not(a))
+			}
+		}
+		if qi >= 0 {
+			g := And(ng...)
+			if guard != nil {
+				g = And(guard, g)
+			}
+			collectForalls(t.args[qi], g, out)
+		}
 	case "forall":
 		if len(t.bvars) == 1 && !t.bound && t.bvars[0].sort == I64 {
 			*out = append(*out, hyp{guard, t})
@@ -309,7 +332,9 @@ func instantiateQuery(f *Term, neg *Term) *Term {
 		}
 		cur = And(append([]*Term{f}, extra...)...)
 		if seedsT != nil {
-			seedFrom = And(newInst...)
+			// cumulative: the goal's own index terms stay candidates (an inner quantifier exposed by an
+			// instance of a nested hypothesis has to be instantiated at them as well)
+			seedFrom = And(append([]*Term{seedsT}, newInst...)...)
 		}
 	}
 	return And(append([]*Term{f}, extra...)...)
